@@ -200,4 +200,6 @@ class System:
 
 
 def replay(beh, opts):
+    if opts.get("nontrivial") == "rejected":
+        return _simple.run(System, beh, opts, nontrivial=lambda b: any(s["res"] in ("ValueError", "TypeError") for s in b["steps"]))
     return _simple.run(System, beh, opts)
